@@ -14,6 +14,7 @@ type Feat struct {
 	DeepBias       bool // new scopes preferably below the deepest existing one
 	Export         bool
 	Objects        bool
+	EmbedObjs      bool // nested parameter objects may be embedded (anonymous) fields
 	Optional       bool
 	Soft           bool
 	Flatten        bool
@@ -221,20 +222,20 @@ func (g *genCtx) encodeParams(keys []Key, role Role) []Param {
 			}
 		}
 	}
-	var conv func(n *pnode) Param
-	conv = func(n *pnode) Param {
+	var conv func(n *pnode, nested bool) Param
+	conv = func(n *pnode, nested bool) Param {
 		if n.leaf != nil {
 			return *n.leaf
 		}
-		o := Param{Kind: PObj}
+		o := Param{Kind: PObj, Embed: nested && g.ft.EmbedObjs && g.r.P(0.4)}
 		for _, f := range n.fields {
-			o.Fields = append(o.Fields, conv(f))
+			o.Fields = append(o.Fields, conv(f, true))
 		}
 		return o
 	}
 	var out []Param
 	for _, n := range top {
-		out = append(out, conv(n))
+		out = append(out, conv(n, false))
 	}
 	return out
 }
@@ -777,6 +778,7 @@ func BaseFeat(r *Rng, thorough bool) Feat {
 	}
 	ft.Export = r.P(0.6)
 	ft.Objects = r.P(0.8)
+	ft.EmbedObjs = r.P(0.4)
 	ft.Optional = r.P(0.6)
 	ft.Soft = r.P(0.5)
 	ft.Flatten = r.P(0.6)
